@@ -340,3 +340,73 @@ func InLoop(b *ssa.BasicBlock) bool {
 	}
 	return false
 }
+
+// ReachInstr decides whether target can execute on some path from the function entry
+// that uses no cut edge and does not execute a blocker instruction first. It returns
+// the offending block path, or nil when target is unreachable under those constraints.
+func ReachInstr(fn *ssa.Function, target ssa.Instruction, cut map[Edge]bool, blocker func(ssa.Instruction) bool) []*ssa.BasicBlock {
+	return ReachInstrFrom(Point{fn.Blocks[0], 0}, target, cut, blocker)
+}
+
+// ReachInstrFrom is ReachInstr starting at an arbitrary point.
+func ReachInstrFrom(start Point, target ssa.Instruction, cut map[Edge]bool, blocker func(ssa.Instruction) bool) []*ssa.BasicBlock {
+	type st struct {
+		b   *ssa.BasicBlock
+		idx int
+	}
+	prev := map[*ssa.BasicBlock]*ssa.BasicBlock{}
+	seen := map[*ssa.BasicBlock]bool{}
+	queue := []st{{start.Block, start.Idx}}
+	for len(queue) > 0 {
+		s := queue[0]
+		queue = queue[1:]
+		blocked := false
+		for i := s.idx; i < len(s.b.Instrs); i++ {
+			in := s.b.Instrs[i]
+			if in == target {
+				var path []*ssa.BasicBlock
+				for x, n := s.b, 0; x != nil && n < 300; x, n = prev[x], n+1 {
+					path = append([]*ssa.BasicBlock{x}, path...)
+				}
+				return path
+			}
+			if blocker != nil && blocker(in) {
+				blocked = true
+				break
+			}
+		}
+		if blocked {
+			continue
+		}
+		for _, succ := range s.b.Succs {
+			if cut[Edge{s.b, succ}] || seen[succ] {
+				continue
+			}
+			seen[succ] = true
+			if succ != start.Block {
+				prev[succ] = s.b
+			}
+			queue = append(queue, st{succ, 0})
+		}
+	}
+	return nil
+}
+
+// CutEdges collects the edges asserting one of the literals.
+func CutEdges(fn *ssa.Function, lits ...Lit) (map[Edge]bool, []int) {
+	atoms := make([]*Atom, len(lits))
+	for i, l := range lits {
+		atoms[i] = l.A
+	}
+	cut := map[Edge]bool{}
+	per := make([]int, len(lits))
+	for _, f := range EdgeFacts(fn, atoms...) {
+		for i, l := range lits {
+			if f.A == l.A && f.Holds == l.Want {
+				cut[f.E] = true
+				per[i]++
+			}
+		}
+	}
+	return cut, per
+}
